@@ -88,8 +88,9 @@ pub fn programs_from_tlc(path: &str, rng: &mut Rng) -> Vec<(Program, Layout)> {
             continue;
         }
         let stdin: Vec<ScriptLine> = j["stdin"].as_array().unwrap().iter().map(|s| {
-            let raw = s["raw"].as_str().unwrap().trim_end_matches('\n').to_string();
-            let cls: &'static str = match s["cls"].as_str().unwrap() { "next" => "next", "quit" => "quit", "print" => "print", _ => "garbage" };
+            let cls: &'static str = match s["cls"].as_str().unwrap() { "next" => "next", "quit" => "quit", "print" => "print", "unreadable" => "unreadable", _ => "garbage" };
+            // the model writes an unreadable line as "?": here it becomes a line holding the byte FFh (not valid UTF-8)
+            let raw = if cls == "unreadable" { "n\u{f8ff}".to_string() } else { s["raw"].as_str().unwrap().trim_end_matches('\n').to_string() };
             let what = if cls == "print" { Some(PrintWhat::Flags) } else { None };
             ScriptLine { raw, newline: true, cls, what }
         }).collect();
@@ -356,18 +357,36 @@ pub fn gen_driver(prop: &str, rng: &mut Rng, sh: &mut Shards, out: &str, thoroug
                             items.push(mov16("dx", dx));
                             items.push(mov16("bx", dx));
                             items.push(Item::Ins(Ins::Mov { w: 8, dst: Opnd::Mem { seg: "", base: "bx", index: "", disp: 0, has_disp: false }, src: Opnd::Imm(cap as i32) }));
-                            items.push(mov16("ax", 0x0A00 | rng.u8() as u16));
-                            items.push(Item::Ins(Ins::Int { n: 0x21 }));
-                            let c = cap as usize;
-                            match if rng.chance(1, 8) { 9 } else { rng.below(7) } {
-                                9 => stdin.push(ScriptLine::unreadable(rng)),
-                                0 => {}
-                                1 => stdin.push(line_of(rng, 0, true)),
-                                2 => stdin.push(line_of(rng, c.saturating_sub(1), true)),
-                                3 => stdin.push(line_of(rng, c, true)),
-                                4 => stdin.push(line_of(rng, c + 1, true)),
-                                5 => { let n = c + 1 + rng.below(300) as usize; stdin.push(line_of(rng, n, true)) }
-                                _ => { let n = 1 + rng.below(10) as usize; stdin.push(line_of(rng, n, false)) }
+                            // the count byte and the first characters may hold something already (an earlier read, other data)
+                            if rng.chance(1, 2) {
+                                for (k, v) in [(1i32, 0x7Fi32), (2, 0x2E), (3, 0x2E)] {
+                                    items.push(Item::Ins(Ins::Mov { w: 8, dst: Opnd::Mem { seg: "", base: "bx", index: "", disp: k, has_disp: true }, src: Opnd::Imm(v) }));
+                                }
+                            }
+                            // one read, or two reads into the same buffer (the second sees what the first left)
+                            let reads = if rng.chance(1, 3) { 2 } else { 1 };
+                            for _ in 0..reads {
+                                items.push(mov16("ax", 0x0A00 | rng.u8() as u16));
+                                items.push(Item::Ins(Ins::Int { n: 0x21 }));
+                                let c = cap as usize;
+                                match if rng.chance(1, 8) { 9 } else { rng.below(9) } {
+                                    9 => stdin.push(ScriptLine::unreadable(rng)),
+                                    0 => {}
+                                    1 => stdin.push(line_of(rng, 0, true)),
+                                    2 => stdin.push(line_of(rng, c.saturating_sub(1), true)),
+                                    3 => stdin.push(line_of(rng, c, true)),
+                                    4 => stdin.push(line_of(rng, c + 1, true)),
+                                    5 => { let n = c + 1 + rng.below(300) as usize; stdin.push(line_of(rng, n, true)) }
+                                    // carriage returns: CR LF ends, several CRs before the end, a CR inside, a lone CR, CR at end of input
+                                    6 | 7 => {
+                                        let nl = rng.below(4) as usize;
+                                        let mut l = line_of(rng, nl, true);
+                                        l.raw.push_str(*rng.pick(&["\r", "\r\r", "\r\r\r", "x\ry", "\rz", " \r"]));
+                                        if rng.chance(1, 4) { l.newline = false; }
+                                        stdin.push(l);
+                                    }
+                                    _ => { let n = 1 + rng.below(10) as usize; stdin.push(line_of(rng, n, false)) }
+                                }
                             }
                             // show what arrived (DS-relative print)
                             if rng.chance(1, 2) && seg < 0xF000 {
@@ -945,6 +964,24 @@ pub fn c14_programs(rng: &mut Rng, scale: usize) -> Vec<(Program, Layout)> {
             }
             for n in [0u32, 2, 3, 4, 0x10, 0x11, 0x20, 0x21, 0x22, 255] {
                 progs.push((Program { data: vec![], items: vec![Item::Label("start".into()), Item::Ins(Ins::Mov { w: 16, dst: Opnd::Reg16("ax"), src: Opnd::Imm(0x0200) }), Item::Ins(Ins::Int { n })], interp: false, stdin: vec![], note: format!("boundary-int-{}", n) }, Layout::plain()));
+            }
+            // OFFSET of a data label in a byte position: accepted up to offset 255, refused from 256 on; any offset in a word position
+            for pad in [0u32, 254, 255, 256, 257, 4096] {
+                let x = Opnd::Offset { name: "xoff".into(), off: 0 };
+                let cases: Vec<Ins> = vec![
+                    Ins::Mov { w: 8, dst: Opnd::Reg8("al"), src: x.clone() },
+                    Ins::BinArith { op: "add", w: 8, dst: Opnd::Reg8("bl"), src: x.clone() },
+                    Ins::Logic { op: "and", w: 8, dst: Opnd::Reg8("cl"), src: x.clone() },
+                    Ins::Mov { w: 8, dst: Opnd::Mem { seg: "", base: "", index: "", disp: 0x3000, has_disp: true }, src: x.clone() },
+                    Ins::Mov { w: 16, dst: Opnd::Reg16("dx"), src: x.clone() },
+                    Ins::BinArith { op: "cmp", w: 16, dst: Opnd::Reg16("si"), src: x.clone() },
+                ];
+                for ins in cases {
+                    let mut data = Vec::new();
+                    if pad > 0 { data.push(DataItem::Def { label: Some("padq".into()), dir: "db", form: DataForm::Zero(pad) }); }
+                    data.push(DataItem::Def { label: Some("xoff".into()), dir: "db", form: DataForm::Num(7) });
+                    progs.push((Program { data, items: vec![Item::Label("start".into()), Item::Ins(Ins::Ctl { op: "stc" }), Item::Ins(ins)], interp: false, stdin: vec![], note: format!("boundary-offset-{}", pad) }, Layout::plain()));
+                }
             }
             // the boundary programs once more with hexadecimal and binary constants
             let extra: Vec<(Program, Layout)> = progs[boundary_start..].iter().flat_map(|(p, _)| {
